@@ -63,6 +63,13 @@ class XSD:
 
     def _element(self, n):
         t = n.get("type")
+        st = n.find(XS + "simpleType")
+        if t is None and st is not None:
+            # an anonymous simple type written inside the element: registered under a name of its own
+            self._anon = getattr(self, "_anon", 0) + 1
+            t = "%s.inline%d" % (n.get("name"), self._anon)
+            st.set("name", t)
+            self._stype(st)
         inline = n.find(XS + "complexType")
         x = self._ctype(inline, n.get("name")) if inline is not None else None
         return (n.get("name"), t, n.get("minOccurs", "1"), n.get("maxOccurs", "1"), x)
